@@ -54,6 +54,33 @@ static std::atomic<bool> g_fail_thread_create{false};
 static std::atomic<bool> g_in_init{false};           // inside AsyncPipe::initialize: count the threads it creates (M-class `threads=`)
 static std::atomic<int> g_init_threads{0};   // `initfail thread`: the next pthread_create answers EAGAIN
 
+// ---------------------------------------------------------------- step-level event log (round 6)
+// Every mutex / condition-variable operation made on the pipe's four mutexes by the pipe's threads (producers inside an
+// AsyncPipe call, the back-end thread, the thread inside cleanup()) is recorded with ONE relaxed counter (no happens-before
+// edge is added: a race on an unsynchronised field stays visible to TSan).  The stamps are taken INSIDE the critical
+// sections only: L right AFTER the mutex was acquired, U right BEFORE it is released, W before the wait releases it, X after
+// the wait re-acquired it, T after a successful try_lock — two sections of one mutex never interleave in the log, and the log
+// order of any two steps that conflict is their real order (they share a mutex or a thread: C10_lock_discipline).  The only
+// events outside a section are the window of a try_lock (`p` before the call, `t` after a failed one) and `u` (after the
+// producer mutex was really released); the replay (lean/TboxModel/C10/Replay.lean) treats them as windows.  N = notify.
+struct EvRec { std::atomic<uint32_t> w{0}; std::atomic<uintptr_t> p{0}; };
+static const size_t kMaxEv = 1u << 19;
+static EvRec g_evs[kMaxEv];
+static std::atomic<size_t> g_evn{0};
+static std::atomic<int> g_evon{0};
+static thread_local int t_evtid = -1;              // -1 not a pipe thread right now; 0..7 producer inside a pipe call; 8 nested append of the sink; 9 back end; 10 cleanup()
+static thread_local void *t_cm = nullptr;          // first mutex locked inside the current pipe call of a producer (= the producer mutex)
+static pthread_t g_backend_th;
+static std::atomic<bool> g_backend_known{false};
+
+static inline void ev(char kind, const void *ptr) {
+    if (t_evtid < 0 || !g_evon.load(std::memory_order_relaxed)) return;
+    size_t i = g_evn.fetch_add(1, std::memory_order_relaxed);
+    if (i >= kMaxEv) return;
+    g_evs[i].p.store((uintptr_t)ptr, std::memory_order_relaxed);
+    g_evs[i].w.store(((uint32_t)(unsigned char)kind << 8) | (uint32_t)t_evtid, std::memory_order_relaxed);
+}
+
 static inline uint64_t next_rand() {
     uint32_t e = g_epoch.load(std::memory_order_relaxed);
     if (t_epoch != e) { t_epoch = e; t_rng = (g_seed.load(std::memory_order_relaxed) + 0x9E3779B97F4A7C15ULL * (uint64_t)(t_role + 17)) | 1; }
@@ -82,23 +109,49 @@ template <typename F> static F real_fn(const char *name) {
     return (F)p;
 }
 
+struct ThreadStart { void *(*fn)(void *); void *arg; };
+static void *backend_trampoline(void *a) {
+    ThreadStart ts = *static_cast<ThreadStart *>(a);
+    free(a);
+    t_evtid = 9;                                       // the thread created by initialize() is the back end
+    return ts.fn(ts.arg);
+}
+
 extern "C" {
 int pthread_mutex_lock(pthread_mutex_t *m) {
     static auto real = real_fn<int (*)(pthread_mutex_t *)>("pthread_mutex_lock");
     maybe_delay();
     int r = real(m);
+    if (r == 0) { ev('L', m); if (t_evtid >= 0 && t_evtid <= 8 && t_cm == nullptr) t_cm = m; }
     if (t_app && t_app->acq == 0 && r == 0) t_app->acq = g_gseq.fetch_add(1) + 1;
+    return r;
+}
+int pthread_mutex_trylock(pthread_mutex_t *m) {
+    static auto real = real_fn<int (*)(pthread_mutex_t *)>("pthread_mutex_trylock");
+    maybe_delay();
+    ev('p', m);
+    int r = real(m);
+    ev(r == 0 ? 'T' : 't', m);
     return r;
 }
 int pthread_create(pthread_t *th, const pthread_attr_t *attr, void *(*fn)(void *), void *arg) {
     static auto real = real_fn<int (*)(pthread_t *, const pthread_attr_t *, void *(*)(void *), void *)>("pthread_create");
     if (g_fail_thread_create.exchange(false)) return EAGAIN;
-    if (g_in_init.load()) g_init_threads.fetch_add(1);
+    if (g_in_init.load()) {
+        g_init_threads.fetch_add(1);
+        ThreadStart *ts = static_cast<ThreadStart *>(malloc(sizeof(ThreadStart)));
+        ts->fn = fn; ts->arg = arg;
+        int r = real(th, attr, backend_trampoline, ts);
+        if (r != 0) free(ts); else { g_backend_th = *th; g_backend_known = true; }
+        return r;
+    }
     return real(th, attr, fn, arg);
 }
 int pthread_mutex_unlock(pthread_mutex_t *m) {
     static auto real = real_fn<int (*)(pthread_mutex_t *)>("pthread_mutex_unlock");
+    ev('U', m);
     int r = real(m);
+    if (t_cm == m && t_evtid >= 0 && t_evtid <= 8) ev('u', m);
     maybe_delay();
     return r;
 }
@@ -107,20 +160,77 @@ int pthread_cond_wait(pthread_cond_t *c, pthread_mutex_t *m) {
     bool prod = (t_role >= 1 && t_role <= 8);
     if (prod) { g_producer_waits.fetch_add(1, std::memory_order_relaxed); g_producers_waiting.fetch_add(1); }
     maybe_delay();
+    ev('W', m);
     int r = real(c, m);
+    ev('X', m);
     if (prod) g_producers_waiting.fetch_sub(1);
     return r;
 }
 int pthread_cond_timedwait(pthread_cond_t *c, pthread_mutex_t *m, const struct timespec *t) {
     static auto real = real_fn<int (*)(pthread_cond_t *, pthread_mutex_t *, const struct timespec *)>("pthread_cond_timedwait");
     maybe_delay();
-    return real(c, m, t);
+    ev('W', m);
+    int r = real(c, m, t);
+    ev('X', m);
+    return r;
 }
 int pthread_cond_clockwait(pthread_cond_t *c, pthread_mutex_t *m, clockid_t clk, const struct timespec *t) {
     static auto real = real_fn<int (*)(pthread_cond_t *, pthread_mutex_t *, clockid_t, const struct timespec *)>("pthread_cond_clockwait");
     maybe_delay();
-    return real(c, m, clk, t);
+    ev('W', m);
+    int r = real(c, m, clk, t);
+    ev('X', m);
+    return r;
 }
+int pthread_cond_broadcast(pthread_cond_t *c) {
+    static auto real = real_fn<int (*)(pthread_cond_t *)>("pthread_cond_broadcast");
+    ev('N', c);
+    return real(c);
+}
+int pthread_cond_signal(pthread_cond_t *c) {
+    static auto real = real_fn<int (*)(pthread_cond_t *)>("pthread_cond_signal");
+    ev('N', c);
+    return real(c);
+}
+}
+
+// the event log of one lifecycle as one line: tokens <kind><mutex><thread>, mutex roles learnt from the log itself
+// (C = first mutex a producer locks inside an append, F = first mutex the back end locks, R = the other mutex a producer
+// locks while it holds only C, B = the fourth), thread 0..7 producer, 8 nested append of the sink, 9 back end, m cleanup()
+static std::string event_line(bool enabled) {
+    size_t n = g_evn.load();
+    if (!enabled) return "E off";
+    if (n > kMaxEv) return "E overflow";
+    uintptr_t C = 0, F = 0, R = 0, B = 0;
+    for (size_t i = 0; i < n; ++i) {
+        uint32_t w = g_evs[i].w.load(std::memory_order_relaxed); uintptr_t p = g_evs[i].p.load(std::memory_order_relaxed);
+        char k = (char)(w >> 8); int t = (int)(w & 255);
+        if (k != 'L') continue;
+        if (t == 9 && !F) F = p;
+        if (t <= 8 && !C) C = p;
+    }
+    if (!C) for (size_t i = 0; i < n && !C; ++i) {       // no append at all: try_lock is only ever used on the producer mutex
+        uint32_t w = g_evs[i].w.load(std::memory_order_relaxed);
+        if ((char)(w >> 8) == 'p') C = g_evs[i].p.load(std::memory_order_relaxed);
+    }
+    for (size_t i = 0; i < n; ++i) {
+        uint32_t w = g_evs[i].w.load(std::memory_order_relaxed); uintptr_t p = g_evs[i].p.load(std::memory_order_relaxed);
+        char k = (char)(w >> 8); int t = (int)(w & 255);
+        if (k == 'L' && t <= 8 && p != C && p != F && !R) R = p;
+    }
+    std::string s = "E";
+    s.reserve(4 * n + 8);
+    for (size_t i = 0; i < n; ++i) {
+        uint32_t w = g_evs[i].w.load(std::memory_order_relaxed); uintptr_t p = g_evs[i].p.load(std::memory_order_relaxed);
+        char k = (char)(w >> 8); int t = (int)(w & 255);
+        char m;
+        if (k == 'N') m = '-';
+        else if (p == C) m = 'C'; else if (p == F) m = 'F'; else if (p == R) m = 'R';
+        else { if (!B) B = p; if (p != B) return "E unknown-mutex"; m = 'B'; }
+        s.push_back(' '); s.push_back(k); s.push_back(m); s.push_back(t == 10 ? 'm' : (char)('0' + t));
+    }
+    if (n == 0) s += " -";
+    return s;
 }
 
 // ---------------------------------------------------------------- buffer allocations made observable (M-class)
@@ -267,6 +377,7 @@ static void compact_verify(Sink *s, const uint8_t *q, size_t n) {
 struct Prod { unsigned tid; unsigned pace_us; std::vector<Tok> toks; };
 
 static tbox::util::AsyncPipe *g_pipe = nullptr;
+static bool g_evlog = false;                        // the step log of the current lifecycle is complete (not switched off)
 static bool g_live = false;
 static bool g_appended_any = false;
 static Sink *g_sink = nullptr;
@@ -290,6 +401,8 @@ static void do_append(unsigned tid, unsigned seq, char kind, const std::vector<u
     AppRec *rec;
     { std::lock_guard<std::mutex> lg(g_rec_m); g_recs.push_back(AppRec{tid, seq, 0}); rec = &g_recs.back(); }
     t_app = rec;
+    int saved_evtid = t_evtid;
+    t_cm = nullptr; t_evtid = (int)tid;
     try {
         if (kind == 'g') {
             size_t h = r.size() / 2;
@@ -302,13 +415,47 @@ static void do_append(unsigned tid, unsigned seq, char kind, const std::vector<u
         } else {
             g_pipe->append(r.data(), r.size());
         }
-        t_app = nullptr;
+        t_app = nullptr; t_evtid = saved_evtid;
     } catch (const std::bad_alloc &) {
-        t_app = nullptr;
+        t_app = nullptr; t_evtid = saved_evtid;
         std::lock_guard<std::mutex> lg(g_rec_m);
         g_aborted.push_back(std::make_pair(tid, seq));
     }
 }
+
+// lesson (g), state-derived input: the sink appends EXACTLY THE BLOCK IT WAS GIVEN back to the same pipe — the same size (a whole
+// buffer when the block came from a full buffer) and, from byte 3 on, the very bytes of the pipe's own buffer that is being
+// delivered (source pointer inside a buffer the pipe owns); the first three bytes are replaced by the tag of pseudo-producer 8
+// and a sequence number so that the specification can still tell the appends apart (lock + 2 lockless appends + unlock).
+static void do_append_same(unsigned seq, const uint8_t *blk, size_t n) {
+    uint8_t hdr[3] = {(uint8_t)0xA8, (uint8_t)(seq / 256), (uint8_t)(seq % 256)};
+    AppRec *rec;
+    { std::lock_guard<std::mutex> lg(g_rec_m); g_recs.push_back(AppRec{8, seq, 0}); rec = &g_recs.back(); }
+    t_app = rec;
+    int saved_evtid = t_evtid;
+    t_cm = nullptr; t_evtid = 8;
+    try {
+        g_pipe->appendLock();
+        try {
+            g_pipe->appendLockless(hdr, 3);
+            g_pipe->appendLockless(blk + 3, n - 3);
+        } catch (...) { g_pipe->appendUnlock(); throw; }
+        g_pipe->appendUnlock();
+        t_app = nullptr; t_evtid = saved_evtid;
+    } catch (const std::bad_alloc &) {
+        t_app = nullptr; t_evtid = saved_evtid;
+        std::lock_guard<std::mutex> lg(g_rec_m);
+        g_aborted.push_back(std::make_pair(8u, seq));
+    }
+}
+
+// lesson 4 (signals): a REAL handled signal (SIGUSR1, handler installed without SA_RESTART) delivered to the back-end thread
+// while it sits in its timed wait — and to producers inside free_buffers_cv_.wait — must change nothing
+static std::atomic<unsigned long> g_sig_seen{0};
+static void on_sigusr1(int) { g_sig_seen.fetch_add(1, std::memory_order_relaxed); }
+static std::atomic<unsigned> g_sigrun_k{0}, g_sigrun_gap{0};
+static pthread_t g_prod_th[8];
+static std::atomic<int> g_prod_state[8];           // 0 none, 1 running (pthread_t valid, not yet joined)
 
 static unsigned watchdog_ms() {
     const char *e = getenv("C10_WATCHDOG_MS");
@@ -355,7 +502,9 @@ static void quiesce_sink() {
 static bool guarded_cleanup(bool announce) {
     Watchdog wd("cleanup", watchdog_ms(), announce);
     quiesce_sink();
+    t_evtid = 10;
     g_pipe->cleanup();
+    t_evtid = -1;
     return true;
 }
 
@@ -368,17 +517,22 @@ static void drop_pipe() {
     delete g_sink; g_sink = nullptr;
     g_live = false; g_declared.clear();
     g_max_us = 0; g_sink_us = 0; g_fail_n = 0;
+    g_evon = 0; g_evlog = false; g_evn = 0; g_backend_known = false; g_sigrun_k = 0;
     g_recs.clear(); g_aborted.clear();
 }
 
 static void producer_main(const Prod &p, unsigned first_seq, std::atomic<bool> &go) {
     t_role = (int)p.tid + 1;
+    g_prod_th[p.tid] = pthread_self();
+    g_prod_state[p.tid].store(1, std::memory_order_release);
     while (!go.load(std::memory_order_acquire)) std::this_thread::yield();
     unsigned seq = first_seq;
     for (const Tok &k : p.toks) {
         if (k.kind == 'z') {
             uint8_t dummy = 0;
+            t_cm = nullptr; t_evtid = (int)p.tid;
             g_pipe->append((seq & 1) ? nullptr : &dummy, 0);     // size 0: the pointer is never looked at, nullptr included
+            t_evtid = -1;
         } else {
             std::vector<uint8_t> r = record_bytes(p.tid, seq, k.len);
             do_append(p.tid, seq, k.kind, r);
@@ -517,6 +671,7 @@ static std::string rle(const std::vector<size_t> &v) {
 static void install_sink() {
     Sink *s = g_sink;
     g_pipe->setCallback([s](const void *p, size_t n) {
+        t_evtid = -1;                                    // harness code runs here; only the nested append below is a pipe call
         if (s->inside.fetch_add(1) != 0) s->overlap = true;
         s->lens.push_back(n);
         const uint8_t *q = static_cast<const uint8_t *>(p);
@@ -524,12 +679,16 @@ static void install_sink() {
         else s->stream.insert(s->stream.end(), q, q + n);
         if (s->echo_mode != 0 && !s->echo_stop.load(std::memory_order_acquire) && s->echo_seq < 40) {
             size_t ord = s->lens.size() - 1;
-            bool fire = s->echo_mode.load() == 1 ? (ord % s->echo_n.load() == 0) : (n < s->buff_size);
+            int md = s->echo_mode.load();
+            bool fire = md == 1 ? (ord % s->echo_n.load() == 0) : md == 3 ? (ord % s->echo_n.load() == 0 && n >= 3) : (n < s->buff_size);
             if (fire) {
                 s->in_echo.fetch_add(1);
                 if (!s->echo_stop.load(std::memory_order_acquire)) {
+                    if (md == 3) do_append_same(s->echo_seq, q, n);      // exactly the block it was given
+                    else {
                     std::vector<uint8_t> r = record_bytes(8, s->echo_seq, s->echo_len.load());
                     do_append(8, s->echo_seq, 'a', r);               // nested append from inside the sink callback
+                    }
                     s->echo_blocks.push_back(ord);
                     ++s->echo_seq;
                 }
@@ -541,6 +700,7 @@ static void install_sink() {
         s->held.store(false);
         maybe_delay();
         s->inside.fetch_sub(1);
+        t_evtid = 9;
     });
 }
 
@@ -571,12 +731,16 @@ static void print_lifecycle(const char *first) {
     std::string qs;
     for (auto &x : q) { if (x.acq == 0) continue; if (!qs.empty()) qs.push_back(','); qs += std::to_string(x.tid) + ":" + std::to_string(x.seq); }
     std::cout << "Q " << (qs.empty() ? "-" : qs) << "\n";
+    g_evon = 0; g_backend_known = false; g_sigrun_k = 0;
+    std::cout << event_line(g_evlog) << "\n";
+    g_evlog = false; g_evn = 0;
     g_recs.clear(); g_aborted.clear();
 }
 
 int main() {
     std::ios::sync_with_stdio(false);
     t_role = 100;
+    { struct sigaction sa; memset(&sa, 0, sizeof sa); sa.sa_handler = on_sigusr1; sigemptyset(&sa.sa_mask); sa.sa_flags = 0; sigaction(SIGUSR1, &sa, nullptr); }
     std::string line;
     while (std::getline(std::cin, line)) {
         auto w = vh::words(line);
@@ -592,9 +756,10 @@ int main() {
             for (auto &sl : g_slots) sl.store(nullptr);
             g_track_size = (size_t)a;
             g_init_threads = 0; g_in_init = true;
+            g_evn = 0; g_evon = 1; g_evlog = true;
             bool ok = g_pipe->initialize(cfg);
             g_in_init = false;
-            if (!ok) g_track_size = 0;
+            if (!ok) { g_track_size = 0; g_evon = 0; g_evlog = false; }
             if (ok) {
                 delete g_sink; g_sink = new Sink; g_sink->sink_us = g_sink_us; g_sink->buff_size = (size_t)a;
                 install_sink();
@@ -635,13 +800,13 @@ int main() {
             if (g_sink) g_sink->sink_us = g_sink_us;   // read by the back end only inside callbacks; set between runs
             std::cout << "P perturb\n";
         } else if (w[0] == "echo" && w.size() == 4 && in_range(w[2], 1000, a) && in_range(w[3], 2000, b) && g_live &&
-                   a >= 1 && (w[1] == "every" || w[1] == "partial" || w[1] == "never")) {
+                   a >= 1 && (w[1] == "every" || w[1] == "partial" || w[1] == "never" || w[1] == "same")) {
             if (g_sink->echo_mode != 0) { std::cout << "bad-op\n"; std::cout.flush(); continue; }
             // written while the back end may be delivering: only before any block exists in this phase in generated cases;
             // the fields are read by the back end inside callbacks => publish through the producer-side mutexes is not
             // available here, so the script is only accepted while nothing has been delivered yet in this lifecycle
             g_sink->echo_n = (unsigned)a; g_sink->echo_len = (unsigned)b;
-            g_sink->echo_mode = w[1] == "every" ? 1 : (w[1] == "partial" ? 2 : 0);
+            g_sink->echo_mode = w[1] == "every" ? 1 : (w[1] == "partial" ? 2 : (w[1] == "same" ? 3 : 0));
             std::cout << "P echo\n";
         } else if (w[0] == "unsetcb" && w.size() == 1 && g_live && !g_appended_any) {
             g_pipe->setCallback(nullptr);                    // no sink: blocks are recycled without being handed to anyone
@@ -651,6 +816,7 @@ int main() {
             std::cout << "P setcb\n";
         } else if (w[0] == "compact" && w.size() == 1 && g_live && !g_appended_any && g_sink->echo_mode == 0) {
             g_sink->compact.store(true, std::memory_order_release);
+            g_evon = 0; g_evlog = false;                      // huge lifecycles: no step log (the replay works on byte lists)
             std::cout << "P compact\n";
         } else if (w[0] == "allocfail" && w.size() == 2 && g_live) {
             long ks[8]; int n = 0; bool okl = true; size_t pos = 0;
@@ -679,9 +845,21 @@ int main() {
             std::atomic<bool> go{false};
             std::vector<std::thread> ths;
             if (!g_declared.empty()) g_appended_any = true;
-            for (auto &p : g_declared) ths.emplace_back(producer_main, std::cref(p), g_seq[p.tid], std::ref(go));
+            std::atomic<unsigned> finished{0};
+            for (auto &p : g_declared) ths.emplace_back([&p, &go, &finished] { producer_main(p, g_seq[p.tid], go); finished.fetch_add(1); });
             go.store(true, std::memory_order_release);
+            unsigned sk = g_sigrun_k.exchange(0), sgap = g_sigrun_gap.load();
+            if (sk) {
+                // signal storm during the run: the back end (in its timed wait, in the sink, between regions) and every producer
+                // (inside free_buffers_cv_.wait when back-pressure holds it).  Threads are only signalled before they are joined.
+                for (unsigned i = 0; i < sk && finished.load() < ths.size(); ++i) {
+                    if (g_backend_known.load()) pthread_kill(g_backend_th, SIGUSR1);
+                    for (int t = 0; t < 8; ++t) if (g_prod_state[t].load(std::memory_order_acquire) == 1) pthread_kill(g_prod_th[t], SIGUSR1);
+                    usleep(sgap);
+                }
+            }
             for (auto &t : ths) t.join();
+            for (auto &st : g_prod_state) st.store(0);
             for (auto &p : g_declared) for (auto &k2 : p.toks) if (k2.kind != 'z') ++g_seq[p.tid];
             g_declared.clear();
             std::cout << "P run\n";
@@ -724,6 +902,7 @@ int main() {
             std::cout << "M held live=" << live << " blocked=" << blocked << "\n";
             g_sink->gate_closed.store(false, std::memory_order_release);
             th.join();
+            g_prod_state[p.tid].store(0);
             ++g_seq[p.tid];
             std::cout << "P fillhold\n";
         } else if (w[0] == "late" && w.size() == 4 && in_range(w[1], 4096, a) && in_range(w[2], 64, b) && in_range(w[3], 200, c) &&
@@ -734,6 +913,13 @@ int main() {
                    in_range(w[2], 4096, a) && in_range(w[3], 64, b) && in_range(w[4], 200, c) && a >= 1 && b >= 1 && !g_live) {
             std::cout.flush();
             std::cout << "M exp " << w[1] << " outcome=" << experiment(w[1], (size_t)a, (size_t)b, (unsigned)c) << "\n";
+        } else if (w[0] == "sig" && w.size() == 3 && in_range(w[1], 200, a) && in_range(w[2], 5000, b) && g_live) {
+            // k real signals to the back-end thread, gap microseconds apart (it is in its timed wait unless something is queued)
+            for (uint64_t i = 0; i < a; ++i) { if (g_backend_known.load()) pthread_kill(g_backend_th, SIGUSR1); if (b) usleep((useconds_t)b); }
+            std::cout << "P sig\n";
+        } else if (w[0] == "sigrun" && w.size() == 3 && in_range(w[1], 200, a) && in_range(w[2], 5000, b) && g_live) {
+            g_sigrun_k = (unsigned)a; g_sigrun_gap = (unsigned)b;      // storm during the next `run`
+            std::cout << "P sigrun\n";
         } else if (w[0] == "sleep" && w.size() == 2 && in_range(w[1], 500, a)) {
             usleep((useconds_t)a * 1000);
             std::cout << "P sleep\n";
@@ -753,7 +939,9 @@ int main() {
             } else {
                 { Watchdog wd("destroy", watchdog_ms(), true);
                   quiesce_sink();
-                  delete g_pipe; g_pipe = nullptr; }
+                  t_evtid = 10;
+                  delete g_pipe; g_pipe = nullptr;
+                  t_evtid = -1; }
                 print_lifecycle("P destroy ok");
             }
         } else {
